@@ -490,7 +490,7 @@ pub fn run(t: &mut Trace, rng: &mut Rng, thorough: bool) {
     // the same witness for the Minimizer hook
     hopcroft_case(t, 4, 2, &[vec![0, 2], vec![2, 0], vec![0, 0], vec![0, 0]], &[false, false, true, false]);
 
-    let n_aut = if thorough { 6000 } else { 400 };
+    let n_aut = if thorough { 6000 } else { 1200 };
     for i in 0..n_aut {
         match i % 4 {
             0 => {
@@ -530,7 +530,7 @@ pub fn run(t: &mut Trace, rng: &mut Rng, thorough: bool) {
             }
         }
     }
-    let n_re = if thorough { 3000 } else { 250 };
+    let n_re = if thorough { 3000 } else { 500 };
     for _ in 0..n_re {
         let depth = rng.range(1, 4) as u32;
         match compiled(rng, depth, 40) {
@@ -538,11 +538,11 @@ pub fn run(t: &mut Trace, rng: &mut Rng, thorough: bool) {
             None => t.count("gen=compile-over-bound"),
         }
     }
-    let n_h = if thorough { 20000 } else { 1500 };
+    let n_h = if thorough { 20000 } else { 3000 };
     for _ in 0..n_h {
         run_hopcroft(t, rng);
     }
-    let n_p = if thorough { 60000 } else { 4000 };
+    let n_p = if thorough { 60000 } else { 8000 };
     for i in 0..n_p {
         let n = if rng.chance(1, 15) { 0 } else { rng.range(1, 12) as u32 };
         let wild = rng.chance(1, 6);
